@@ -39,6 +39,8 @@ type Report struct {
 	Drift    []string
 	Inconcl  []string
 	Fatal    string // the check could not run (exit 2)
+
+	NoEvidence bool // replay runs do not rewrite the evidence file
 }
 
 func NewReport(id string, e *Env) *Report {
@@ -151,10 +153,15 @@ func (r *Report) Finish() int {
 	// remove stale replay files of this property
 	old, _ := filepath.Glob(filepath.Join(evdir, "replay", r.ID+"-*.json"))
 	for _, o := range old {
-		_ = os.Remove(o)
+		if !r.NoEvidence {
+			_ = os.Remove(o)
+		}
 	}
 	for i, v := range fresh {
 		p := filepath.Join(evdir, "replay", fmt.Sprintf("%s-%03d.json", r.ID, i+1))
+		if r.NoEvidence {
+			p = filepath.Join(evdir, "replay", fmt.Sprintf("%s-replayed-%03d.json", r.ID, i+1))
+		}
 		if i < 50 {
 			b, _ := json.MarshalIndent(map[string]any{"property": r.ID, "key": v.Key, "what": v.What, "replay": v.Replay, "seed": e.Seed, "tier": e.Tier}, "", " ")
 			_ = os.WriteFile(p, b, 0o644)
@@ -191,8 +198,10 @@ func (r *Report) Finish() int {
 		"wall_s":      time.Since(e.Start).Seconds(),
 		"violations":  len(fresh),
 	}
-	b, _ := json.MarshalIndent(ev, "", " ")
-	_ = os.WriteFile(filepath.Join(evdir, r.ID+".json"), b, 0o644)
+	if !r.NoEvidence {
+		b, _ := json.MarshalIndent(ev, "", " ")
+		_ = os.WriteFile(filepath.Join(evdir, r.ID+".json"), b, 0o644)
+	}
 
 	switch {
 	case len(fresh) > 0:
